@@ -137,6 +137,69 @@ class FillUpdate(e2.Case):
         w.claim("buffer-mode", outs["mode_out"] == ("RGBA" if m == "RGB" else m), probe=lambda ro, val: ro["mode_out"] == ("RGBA" if m == "RGB" else m))
 
 
+class FillPoints(e2.Case):
+    """fill from paired integer index ARRAYS (one source point per destination point) — the form ChunkedPlateCarreeSampler
+    passes (iy[ok], ix[ok], biy[ok], bix[ok]). N points with symbolic, pairwise distinct destinations."""
+
+    N = 3
+
+    def __init__(self, mode):
+        self.mode = mode
+        self.name = "fill-points-%s" % mode
+        self.max_paths = 200
+
+    def run(self, w):
+        sdt, sch, bdt, bch = MODES[self.mode]
+        SH = w.int("SH", 1, 4096)
+        SW = w.int("SW", 1, 4096)
+        w.prefer(symx.B(SH <= 300) & symx.B(SW <= 300) if w.symbolic else True)
+        shape = (SH, SW) + ((sch,) if sch else ())
+        lo = 0 if self.mode in ("I16", "I32") else None
+        src = w.array("src", shape, sdt, lo=lo)
+        n = self.N
+        iy = w.array("iy", (n,), "int64", lo=0, hi=4095)
+        ix = w.array("ix", (n,), "int64", lo=0, hi=4095)
+        by = w.array("by", (n,), "int64", lo=0, hi=255)
+        bx = w.array("bx", (n,), "int64", lo=0, hi=255)
+        if w.symbolic:
+            for k in range(n):
+                w.assume(symx.B(iy.get((k,)) < I(SH)) & symx.B(ix.get((k,)) < I(SW)))
+                for j in range(k):
+                    w.assume(symx.B(z3.Or(by.get((k,)) != by.get((j,)), bx.get((k,)) != bx.get((j,)))))
+        old = w.array("old", (256, 256) + ((bch,) if bch else ()), bdt, lo=lo)
+        with w.patched(ti):
+            img = Image.from_array(src)
+            buf = ImageMode(MODE_ENUM[self.mode]).make_maskable_buffer(256, 256)
+            buf.asarray()[...] = old
+            img.fill_into_maskable_buffer(buf, iy, ix, by, bx)
+            out = buf.asarray()
+        return dict(out=out, src=src, old=old, pts=(iy, ix, by, bx), mode_out=buf.mode.name)
+
+    def claims(self, w, outs):
+        sdt, sch, bdt, bch = MODES[self.mode]
+        out, src = outs["out"], outs["src"]
+        iy, ix, by, bx = outs["pts"]
+        r = w.int("r", 0, 255)
+        c = w.int("c", 0, 255)
+        idx = (r, c)
+        ch = None
+        if bch:
+            ch = w.int("ch", 0, bch - 1)
+            idx = (r, c, ch)
+        want = undefined_elem(self.mode)
+        for k in range(self.N):
+            sr, sc = iy.get((k,)), ix.get((k,))
+            if self.mode == "RGB":
+                inside = symnp.elem_ite(I(ch) == 3, z3.IntVal(255), src.get((sr, sc, z3.If(I(ch) == 3, 0, I(ch)))))
+            elif sch:
+                inside = src.get((sr, sc, I(ch)))
+            else:
+                inside = src.get((sr, sc))
+            want = symnp.elem_ite(z3.And(by.get((k,)) == I(r), bx.get((k,)) == I(c)), inside, want)
+        w.claim_eq("pixel", out.get(idx), want, probe=("out", idx),
+                   what="fill into maskable buffer (%s) from paired index arrays: exactly the addressed points defined, with the source values" % self.mode)
+
+
 MODE_ENUM = {"RGB": "RGB", "RGBA": "RGBA", "F32": "F", "F64": "D", "F16x3": "F16x3", "U8": "U8", "I16": "I16", "I32": "I32"}
 
 
@@ -429,6 +492,7 @@ def cases(tier):
         for op in ("fill", "update"):
             for rev in (False, True):
                 out.append(FillUpdate(mode, op, rev))
+        out.append(FillPoints(mode))
         out.append(ClearAndMasked(mode))
         out.append(WriteRead(mode))
         out.append(WriteRead(mode, "same"))
@@ -437,10 +501,11 @@ def cases(tier):
 
 
 def check(run):
+    run.outside("update_into_maskable_buffer with paired index ARRAYS: not a rectangle indexer and no caller passes one (the real function then updates a temporary copy, i.e. does nothing)")
     run.uses(ti.Image.from_array, ti.ImageMode.make_maskable_buffer, ti.Image.fill_into_maskable_buffer,
              ti.Image.update_into_maskable_buffer, ti.Image.clear, ti.Image.is_completely_masked,
              ti.Image._as_writeable_array, tp.PyramidIO.write_image, tp.PyramidIO.read_image, tp.PyramidIO.tile_path)
-    run.bound(modes="all 8", source_shape="symbolic 1..4096 x 1..4096", rectangle="symbolic, 1..256 x 1..256, anywhere inside source and buffer; forward and reversed-row slice forms",
+    run.bound(modes="all 8", source_shape="symbolic 1..4096 x 1..4096", rectangle="symbolic, 1..256 x 1..256, anywhere inside source and buffer; forward and reversed-row slice forms; fill also from paired index arrays of 3 points (symbolic positions, distinct destinations: the chunk sampler's form)",
               pixel="symbolic (r, c, channel) of the 256x256 buffer", prior_buffer="arbitrary (uninterpreted)", file_history="prior file present / absent (symbolic)")
     run.assume("numpy semantics as modelled by vlib/symnp.py (validated per run against real numpy on solver-chosen inputs: *.conformance obligations)",
                "floats are reals plus a NaN flag (no infinities, no rounding)", "integer data non-negative for I16/I32 (the property speaks of non-negative values)",
